@@ -6,4 +6,4 @@ Require Import ExtrOcamlBasic ExtrOcamlString.
 Extraction Language OCaml.
 Extraction "../ocaml/c04/model.ml" sort_ring assoc_opt replicas_for rs_len rs_iter rs_nth rs_choose
   rs_ordered spec_replicas list_eqb same_set subset nodupb mem tokens_distinct dc_tokens_distinct
-  ring_dcs in_dc.
+  ring_dcs in_dc rs_run list_run placement_ok ordered_ok.
